@@ -77,6 +77,8 @@ class RefServer:
     def _make_nn(self, t, path, rec):
         if isinstance(t, GraphQLList):
             n = self.rng.choice([0, 1, 2, 3])
+            if rec["objects"] > 120 or len(path) > 9:
+                n = min(n, 1)  # keep responses of deeply nested / recursive selections bounded
             rec["list_lengths"].add(min(n, 2))
             return [self.make(t.of_type, path + (i,), rec) for i in range(n)]
         if is_composite_type(t):
